@@ -639,3 +639,33 @@ pub fn subscription_graph_cases(rng: &mut Rng, n: usize) -> Vec<GDoc> {
     }
     out
 }
+
+/// C05: two fields with the same response key and the same field name whose single argument takes
+/// ALL ordered pairs of values from a pool with every literal kind (scalars, enum, null, variable,
+/// lists of different lengths, objects with equal / subset / superset / reordered key sets, nested);
+/// plus argument present on one side only. Only the argument comparison decides.
+pub fn merge_argument_cases() -> Vec<GDoc> {
+    let o = |kv: Vec<(&str, GValue)>| GValue::Obj(kv.into_iter().map(|(k, v)| (k.to_string(), v)).collect());
+    let pool: Vec<GValue> = vec![
+        GValue::Int(1), GValue::Int(2), GValue::Float("1.5".into()), GValue::Str("a".into()), GValue::Bool(true), GValue::Null,
+        GValue::Enum("RED".into()), GValue::Var("v".into()), GValue::Var("w".into()),
+        GValue::List(vec![]), GValue::List(vec![GValue::Int(1)]), GValue::List(vec![GValue::Int(1), GValue::Int(2)]), GValue::List(vec![GValue::Int(2), GValue::Int(1)]),
+        o(vec![]), o(vec![("x", GValue::Int(1))]), o(vec![("x", GValue::Int(1)), ("y", GValue::Int(2))]), o(vec![("y", GValue::Int(2)), ("x", GValue::Int(1))]),
+        o(vec![("y", GValue::Int(2))]), o(vec![("x", GValue::Int(2))]),
+        o(vec![("inner", o(vec![("x", GValue::Int(1))]))]), o(vec![("inner", o(vec![("x", GValue::Int(1)), ("y", GValue::Int(0))]))]),
+        GValue::List(vec![o(vec![("x", GValue::Var("v".into()))])]), GValue::List(vec![o(vec![("x", GValue::Var("v".into())), ("y", GValue::List(vec![GValue::Int(1)]))])]),
+    ];
+    let fld = |arg: Option<&GValue>| GSel::Field { alias: Some("k".into()), name: "f_Point_0".into(),
+        args: arg.map(|v| vec![("a".to_string(), v.clone())]).unwrap_or_default(), dirs: vec![], sels: vec![] };
+    let vars = vec![GVar { name: "v".into(), ty: GType::Named("Int".into()), default: None }, GVar { name: "w".into(), ty: GType::Named("Int".into()), default: None }];
+    let doc = |a: GSel, b: GSel| GDoc(vec![GDef::Op { kind: OpKind::Query, name: Some("Q".into()), vars: vars.clone(), dirs: vec![], sels: vec![a, b] }]);
+    let mut out = vec![];
+    for x in &pool {
+        for y in &pool {
+            out.push(doc(fld(Some(x)), fld(Some(y))));
+        }
+        out.push(doc(fld(Some(x)), fld(None)));
+        out.push(doc(fld(None), fld(Some(x))));
+    }
+    out
+}
